@@ -809,12 +809,15 @@ package go9p
 // "refuses and never forwards" and "forwards exactly once" become nfwd + nans == 1 together with the
 // guard obligations at the forwarding call.
 
+//@ pure connok(c) = c != nil && c.Srv != nil && c.fidpool != nil && c.reqs != nil && c.Msize >= 24 && c.Srv.Upool != nil && implements(c.Srv.ops, "SrvReqOps")
+//@ pure poolok(c) = forall k int :: inmap(c.fidpool, k) ==> c.fidpool[k] != nil && c.fidpool[k].Fconn == c && c.fidpool[k].fid == k
+//@ pure reqwf(req) = req != nil && req.Tc != nil && req.Rc != nil && connok(req.Conn)
 //@ pure reqok(req) = req != nil && req.Tc != nil && req.Rc != nil && req.Conn != nil && req.Conn.Srv != nil && implements(req.Conn.Srv.ops, "SrvReqOps")
 //@ pure iohdr() = 24
 
 //@ func (*Srv).walk(srv, req)
 //@   property C05 C06
-//@   requires srv != nil && reqok(req) && req.Fid != nil && req.Conn.fidpool != nil && nolocks()
+//@   requires srv != nil && reqwf(req) && nolocks() && req.Fid != nil && poolok(req.Conn)
 //@   ghost nfwd int = 0
 //@   ghost nans int = 0
 //@   at call(SrvReqOps.Walk) ghost nfwd := nfwd + 1
@@ -826,7 +829,7 @@ package go9p
 
 //@ func (*Srv).open(srv, req)
 //@   property C05 C06
-//@   requires srv != nil && reqok(req) && req.Fid != nil
+//@   requires srv != nil && reqwf(req) && nolocks() && req.Fid != nil
 //@   ghost nfwd int = 0
 //@   ghost nans int = 0
 //@   at call(SrvReqOps.Open) ghost nfwd := nfwd + 1
@@ -839,7 +842,7 @@ package go9p
 // special files: DMSYMLINK|DMLINK|DMDEVICE|DMNAMEDPIPE|DMSOCKET = 0x3B00000 = 61865984
 //@ func (*Srv).create(srv, req)
 //@   property C05 C06
-//@   requires srv != nil && reqok(req) && req.Fid != nil
+//@   requires srv != nil && reqwf(req) && nolocks() && req.Fid != nil
 //@   ghost nfwd int = 0
 //@   ghost nans int = 0
 //@   at call(SrvReqOps.Create) ghost nfwd := nfwd + 1
@@ -852,7 +855,7 @@ package go9p
 
 //@ func (*Srv).read(srv, req)
 //@   property C05 C06 C12
-//@   requires srv != nil && reqok(req) && req.Fid != nil && req.Conn.Msize >= 24 && len(req.Rc.Buf) >= req.Conn.Msize
+//@   requires srv != nil && reqwf(req) && nolocks() && req.Fid != nil && req.Conn.Msize >= 24 && len(req.Rc.Buf) >= req.Conn.Msize
 //@   ghost nfwd int = 0
 //@   ghost nans int = 0
 //@   at call(SrvReqOps.Read) ghost nfwd := nfwd + 1
@@ -865,7 +868,7 @@ package go9p
 
 //@ func (*Srv).write(srv, req)
 //@   property C05 C06
-//@   requires srv != nil && reqok(req) && req.Fid != nil
+//@   requires srv != nil && reqwf(req) && nolocks() && req.Fid != nil
 //@   ghost nfwd int = 0
 //@   ghost nans int = 0
 //@   at call(SrvReqOps.Write) ghost nfwd := nfwd + 1
@@ -879,7 +882,7 @@ package go9p
 
 //@ func (*Srv).clunk(srv, req)
 //@   property C05 C06
-//@   requires srv != nil && reqok(req) && req.Fid != nil
+//@   requires srv != nil && reqwf(req) && nolocks() && req.Fid != nil
 //@   ghost nfwd int = 0
 //@   ghost nans int = 0
 //@   at call(SrvReqOps.Clunk) ghost nfwd := nfwd + 1
@@ -890,7 +893,7 @@ package go9p
 
 //@ func (*Srv).remove(srv, req)
 //@   property C05 C06
-//@   requires srv != nil && reqok(req) && req.Fid != nil
+//@   requires srv != nil && reqwf(req) && nolocks() && req.Fid != nil
 //@   ghost nfwd int = 0
 //@   at call(SrvReqOps.Remove) ghost nfwd := nfwd + 1
 //@   at call(SrvReqOps.Remove) requires [args] arg1 == req && req.Fid == old(req.Fid) && req.Tc == old(req.Tc)
@@ -898,7 +901,7 @@ package go9p
 
 //@ func (*Srv).stat(srv, req)
 //@   property C05 C06
-//@   requires srv != nil && reqok(req) && req.Fid != nil
+//@   requires srv != nil && reqwf(req) && nolocks() && req.Fid != nil
 //@   ghost nfwd int = 0
 //@   at call(SrvReqOps.Stat) ghost nfwd := nfwd + 1
 //@   at call(SrvReqOps.Stat) requires [args] arg1 == req && req.Fid == old(req.Fid) && req.Tc == old(req.Tc)
@@ -906,7 +909,7 @@ package go9p
 
 //@ func (*Srv).wstat(srv, req)
 //@   property C05 C06
-//@   requires srv != nil && reqok(req) && req.Fid != nil
+//@   requires srv != nil && reqwf(req) && nolocks() && req.Fid != nil
 //@   ghost nfwd int = 0
 //@   at call(SrvReqOps.Wstat) ghost nfwd := nfwd + 1
 //@   at call(SrvReqOps.Wstat) requires [args] arg1 == req && req.Fid == old(req.Fid) && req.Tc == old(req.Tc)
@@ -915,10 +918,10 @@ package go9p
 // Behaviour allowed to the implementation's authentication callbacks (assumed, not proved):
 // they touch only the data buffer they are given and report a count within it.
 //@ iface AuthOps.AuthRead(op, afid, offset, data) (count, err)
-//@   ensures  0 <= count && count <= len(data)
+//@   ensures  0 <= count && count <= len(data) && errwf(err)
 //@   assigns  elems(data)
 //@ iface AuthOps.AuthWrite(op, afid, offset, data) (count, err)
-//@   ensures  0 <= count && count <= len(data)
+//@   ensures  0 <= count && count <= len(data) && errwf(err)
 //@   assigns  nothing
 
 // Fid table primitives. The table is the map conn.fidpool; a fid's reference count is guarded by the fid's mutex.
@@ -970,9 +973,6 @@ package go9p
 //@   assigns  nothing
 
 // connection/request well-formedness the framework maintains for every request it dispatches
-//@ pure connok(c) = c != nil && c.Srv != nil && c.fidpool != nil && c.reqs != nil && c.Msize >= 24 && c.Srv.Upool != nil && implements(c.Srv.ops, "SrvReqOps")
-//@ pure poolok(c) = forall k int :: inmap(c.fidpool, k) ==> c.fidpool[k] != nil && c.fidpool[k].Fconn == c && c.fidpool[k].fid == k
-//@ pure reqwf(req) = req != nil && req.Tc != nil && req.Rc != nil && connok(req.Conn)
 
 //@ func (*SrvReq).RespondError(req, err)
 //@   property C03 C06 C12
